@@ -153,3 +153,16 @@ Definition check_rows (c : Q * dy * list dy * list dy) : Z :=
       then 0%Z else 1%Z
   | None => 1%Z
   end.
+
+(* linearity on the implementation: f(a y + b z) against a f(y) + b f(z), the combination formed exactly *)
+Definition check_lin (c : Q * dy * (dy * dy) * (list dy * list dy * list dy)) : Z :=
+  let '(rel, scale, (a, b), (fy, fz, fyz)) := c in
+  match dy_toQ scale, dy_toQ a, dy_toQ b with
+  | Some sc, Some aq, Some bq =>
+      if (length fy =? length fyz)%nat && (length fz =? length fyz)%nat &&
+         forallb (fun p => match dy_toQ (fst (fst p)), dy_toQ (snd (fst p)) with
+                           | Some u, Some v => within (rel * Qabs sc + lag_abs) (aq * u + bq * v) (snd p)
+                           | _, _ => false end) (combine (combine fy fz) fyz)
+      then 0%Z else 1%Z
+  | _, _, _ => 1%Z
+  end.
